@@ -237,3 +237,83 @@ Example ex_order_differs :
   | Err _ => False
   end.
 Proof. vm_compute. split; reflexivity. Qed.
+
+(** * The real file names
+
+    From here on [show] / [parse] are the models of Period.__str__ and periods.period that
+    C05's correspondence runs against the implementation (model/PeriodStr.v), through
+    [show_real] (model/DumpNames.v), and the round trip is no longer a hypothesis: it is
+    C05's theorem period_roundtrip.  [storable_real p]: [p] is in the domain of that theorem
+    ([claimed]: the eternity period, or a real date with a four-digit year and a start
+    aligned to the unit) and has size one - what a holder keeps - so the one case in which
+    the text does not give the period back (twelve months print as a year) cannot occur.
+    The eternity period is written as ETERNITY.npy and "ETERNITY" parses back to it. *)
+From Coq Require Import Lia.
+From Verif Require Import PeriodStr PeriodStrSpec DumpNames DumpNamesProofs.
+Open Scope nat_scope.
+
+Theorem real_names_roundtrip : forall p, storable_real p -> parse_period (show_real p) = Ok p.
+Proof. exact real_roundtrip. Qed.
+Print Assumptions real_names_roundtrip.
+
+Theorem restore_dump_identity_real_names :
+  forall sy og u, dumpable storable_real sy og u ->
+  exists f u', dump_simulation show_real sy og u [] = Ok f
+    /\ restore_simulation parse_period sy og f = Ok u'
+    /\ (forall k, lookup k (cache (u_st u')) = lookup k (cache (u_st u)))
+    /\ stack (u_st u') = [] /\ invalid (u_st u') = []
+    /\ same_structure og u u'
+    /\ pop_of og u' = pop_of og u.
+Proof. exact restore_dump_identity_real. Qed.
+Print Assumptions restore_dump_identity_real_names.
+
+Theorem dump_restore_then_requests_real_names :
+  forall sy og u, dumpable storable_real sy og u -> stack (u_st u) = [] -> invalid (u_st u) = [] ->
+  exists f u', dump_simulation show_real sy og u [] = Ok f
+    /\ restore_simulation parse_period sy og f = Ok u'
+    /\ forall fuel rs,
+         snd (Engine.run fuel sy (pop_of og u') (u_st u') rs)
+         = snd (Engine.run fuel sy (pop_of og u) (u_st u) rs).
+Proof. exact dump_restore_run_real. Qed.
+Print Assumptions dump_restore_then_requests_real_names.
+
+Theorem dump_is_injective_on_periods_real_names : forall p q, storable_real p -> storable_real q ->
+  file_name show_real p = file_name show_real q -> p = q.
+Proof. exact file_name_injective_real. Qed.
+Print Assumptions dump_is_injective_on_periods_real_names.
+
+(** Non-vacuity: the example simulation above is dumpable with the real names; its files
+    are called as the implementation calls them; restoring gives the arrays back. *)
+Example ex_storable_real : storable_real march /\ storable_real eternity_period
+                           /\ storable_real (Week, (2020, 12, 28)%Z, 1%Z)
+                           /\ storable_real (Year, (2018, 3, 1)%Z, 1%Z).
+Proof. unfold storable_real, claimed, Cal.valid. cbn. repeat split; auto; try lia; try reflexivity. Qed.
+
+Example ex_dumpable_real : dumpable storable_real ex_sys ex_og ex_u.
+Proof.
+  apply (dumpable_change_storable (fun _ => True)); [apply dumpable_b_sound; vm_compute; reflexivity|].
+  intros k a Hl. apply lookup_in in Hl. vm_compute in Hl.
+  destruct ex_storable_real as [Hm [He _]].
+  destruct Hl as [<-|[<-|[<-|[]]]]; assumption.
+Qed.
+
+Example ex_real_names :
+  match dump_simulation show_real ex_sys ex_og ex_u [] with
+  | Ok f =>
+      listdir_var 0 f = ["2018-03.npy"%string] /\ listdir_var 1 f = ["ETERNITY.npy"%string]
+      /\ match restore_simulation parse_period ex_sys ex_og f with
+         | Ok u' => lookup (2, march) (cache (u_st u')) = Some [20; 40; 0]%Z
+                    /\ lookup (1, eternity_period) (cache (u_st u')) = Some [1; 0; 1]%Z
+                    /\ u_gcount u' = 3
+         | Err _ => False
+         end
+  | Err _ => False
+  end.
+Proof. vm_compute. repeat split; reflexivity. Qed.
+
+Example ex_real_name_forms :
+  map (file_name show_real)
+      [ (Year, (2018, 1, 1)%Z, 1%Z); (Year, (2018, 3, 1)%Z, 1%Z); (Day, (2018, 3, 5)%Z, 1%Z);
+        (Week, (2020, 12, 28)%Z, 1%Z); (Weekday, (2021, 1, 1)%Z, 1%Z) ]
+  = [ "2018.npy"; "year:2018-03.npy"; "2018-03-05.npy"; "2020-W53.npy"; "2020-W53-5.npy" ]%string.
+Proof. vm_compute. reflexivity. Qed.
